@@ -53,8 +53,10 @@ fn words(max_len: usize) -> Vec<CW> {
         }
     }
     // runs longer than overlong (typed `kaaaa`, or made by an earlier boundary deletion): copies are segments of the tier as well
-    let (t, a, i) = (seg("t"), seg("a"), seg("i"));
-    for (k, segs) in [vec![vec![t, a, a, a, a]], vec![vec![a, a, a, a], vec![t, a]], vec![vec![t, a], vec![i, i, i, i, i, t]], vec![vec![t, t, t, t, a]], vec![vec![a, a, a, a, a, a]]].into_iter().enumerate() {
+    let (t, a, i, p) = (seg("t"), seg("a"), seg("i"), seg("p"));
+    // ... and syllables that meet in the same segment, so that joining them makes one run of four to six copies
+    for (k, segs) in [vec![vec![t, a, a, a, a]], vec![vec![a, a, a, a], vec![t, a]], vec![vec![t, a], vec![i, i, i, i, i, t]], vec![vec![t, t, t, t, a]], vec![vec![a, a, a, a, a, a]],
+        vec![vec![t, a, a], vec![a, a]], vec![vec![t, i], vec![i, i, i]], vec![vec![p, a, t], vec![t, t, t], vec![a]], vec![vec![t, a, a], vec![a, a], vec![a, a]], vec![vec![a, a], vec![a, a, t]]].into_iter().enumerate() {
         for d in 0..2 { out.push(segs.iter().enumerate().map(|(j, sg)| CSyl { segs: sg.clone(), stress: ((k + j + d) % 3) as u8, tone: [0, 5, 51][(k + j + d) % 3] }).collect()); }
     }
     out
@@ -90,7 +92,7 @@ fn eval(text: &str, class: char, ipa_out: bool, ws: &[CW], a: &mut Acc) {
 pub fn run() -> i32 {
     let mut r = Report::new("C14");
     let thorough = r.thorough();
-    r.rule = "class S (segment-only): input = 1 or 2 segment-matching items over {a,t,C,V,[+cons],[],{p,a},V:[+long],a:[-long]}, output = the same number of items over {i,t,[+voice],[-hi],[-place],[+round]}; class P (prosody-only): stress / secondary stress / tone setters on % and on segments (binary, and alpha-valued with the alpha bound by the input or by the context), `$ > *`, `* > $`, `$X > &`, `X$ > &`, and 22 boundary changes written as substitutions whose output restates the matched segments and adds / drops / moves a `$` (`V=1 $ > 1`, `C=1 > $ 1`, `a $ t > a t`, ...; the literal forms on words without long segments); each with no environment and with every context and every exception of <= 1 item (thorough: one item on each side, `#`) over the 22-item environment alphabet (optionals, ellipsis, %, structures, sets, variables); x decorated words of W(I4,L) incl. long segments, plus ten words with runs of four to six copies. Oracle when Ok: S keeps syllable count, stress and tone vectors (and segments per syllable when no long segment is involved); P keeps the flattened segment sequence. Non-trivial = Ok and the word changed.".into();
+    r.rule = "class S (segment-only): input = 1 or 2 segment-matching items over {a,t,C,V,[+cons],[],{p,a},V:[+long],a:[-long]}, output = the same number of items over {i,t,[+voice],[-hi],[-place],[+round]}; class P (prosody-only): stress / secondary stress / tone setters on % and on segments (binary, and alpha-valued with the alpha bound by the input or by the context), `$ > *`, `* > $`, `$X > &`, `X$ > &`, and 22 boundary changes written as substitutions whose output restates the matched segments and adds / drops / moves a `$` (`V=1 $ > 1`, `C=1 > $ 1`, `a $ t > a t`, ...; the literal forms on words without long segments); each with no environment and with every context and every exception of <= 1 item (thorough: one item on each side, `#`) over the 22-item environment alphabet (optionals, ellipsis, %, structures, sets, variables); x decorated words of W(I4,L) incl. long segments, plus twenty words with runs of four to six copies, half of them only once two syllables are joined. Oracle when Ok: S keeps syllable count, stress and tone vectors (and segments per syllable when no long segment is involved); P keeps the flattened segment sequence. Non-trivial = Ok and the word changed.".into();
     let ws = words(if thorough { 4 } else { 3 });
     let e1 = env_texts(if thorough { 2 } else { 1 });
     let e_small: Vec<String> = e1.iter().take(1).cloned().chain(e1.iter().skip(1).step_by(if thorough { 7 } else { 9 }).cloned()).collect();
